@@ -79,7 +79,8 @@ def cfgOfJson (j : J) : Cfg :=
     extUnionRtype := j.boolD "extUnionRtype", extArgPy := j.boolD "extArgPy", extInputPy := j.boolD "extInputPy",
     extKeepAll := j.boolD "extKeepAll", extSchemaDres := j.boolD "extSchemaDres",
     extInputFieldExtended := j.boolD "extInputFieldExtended",
-    cloneRegsDeep := j.boolD "cloneRegsDeep" true }
+    cloneRegsDeep := j.boolD "cloneRegsDeep" true, cloneRegsFiltered := j.boolD "cloneRegsFiltered" true,
+    cloneRegsByValue := j.boolD "cloneRegsByValue" true, extKeepRegs := j.boolD "extKeepRegs" true }
 
 def strPairs (j : J) (k : String) : List (String × String) :=
   (j.arrD k).filterMap fun e => match e with | .arr [.str a, .str b] => some (a, b) | _ => none
@@ -189,9 +190,19 @@ def handleRegs (j : J) : J :=
   let r2 := outerOfJson r1.1 (src.getD "subscriptions")
   let regs : Registries := { resolvers := r1.2, subscriptions := r2.2, defaultResolvers := dictOfJson (src.getD "default_resolvers"),
                              defaultResolver := optNat src "default_resolver" }
-  let c := cloneRegs (j.boolD "deep" true) r2.1 regs
-  let c2 := applyOps ((j.arrD "ops").map regOpOfJson) c
-  .obj [("source", regsToJson c2.1 regs), ("clone", regsToJson c2.1 c2.2)]
+  -- `fields`: {object type of the derived schema: [its field names]} — the `(type, field)` pairs `_registered` accepts;
+  -- `fieldres` / `fieldsub`: {type: {field: id}} — the resolvers the FIELD objects of the derived schema carry
+  let fields := j.getD "fields"
+  let exists_ : String → String → Bool := fun t f => (strList fields t).contains f
+  let tbl (k : String) : String → String → Option Nat := fun t f => (((j.getD k).getD t).getD f).asNat?
+  let cfg := cfgOfJson (j.getD "cfg")
+  let r := if j.strD "kind" == "extend" then extendRegs cfg exists_ r2.1 regs
+           else cloneRegsOn cfg exists_ ⟨tbl "fieldres", tbl "fieldsub"⟩ r2.1 regs
+  match r with
+  | none => .obj [("rejected", .bool true), ("source", regsToJson r2.1 regs)]
+  | some c =>
+    let c2 := applyOps ((j.arrD "ops").map regOpOfJson) c
+    .obj [("rejected", .bool false), ("source", regsToJson c2.1 regs), ("clone", regsToJson c2.1 c2.2)]
 
 def handle (j : J) : J :=
   match j.strD "op" with
